@@ -63,4 +63,17 @@ def obligations(tier):
                     'recognizers_date_time.date_time.base_merged:BaseMergedExtractor.has_token_index']),
         Ob('O1.8-witness', 'fn', 'harness.witness:api_witness', slices=[{'w': 'F2'}], timeout=t, finding='F2', descr='API witness of F2 (empty entity)'),
     ]
+    kinds = ['phone', 'ip', 'email', 'url', 'hashtag', 'mention', 'guid', 'currency', 'dimension', 'number', 'percentage', 'datetime']
+    heavy = ('currency', 'datetime', 'phone', 'number')
+    cs = []
+    for k in kinds:
+        cs += [{'kind': k, 'pad': a} for a in range(9)] if k in heavy else [{'kind': k}]
+    obs.append(Ob('O1.9-composed', 'sx', 'harness.compose:h_compose', twin='harness.compose:t_compose', slices=cs, timeout=max(t, 300),
+                  descr='API level, all real regexes: queries assembled from pools (pad x prefix x body x tail, incl. dialing prefixes, currency prefixes with a gap, a case-expanding '
+                        'code point, CJK and full-width forms) through 12 recognisers: 0 <= start <= end < len, text = normalised slice; entities pairwise disjoint',
+                  bounds='9 pads x 3..7 prefixes x 4..9 bodies x 7 tails per recogniser (about 23 000 queries), enumerated through the solver; en-us',
+                  encodes=['recognizers_sequence.sequence.extractors:BasePhoneNumberExtractor.extract', 'recognizers_sequence.sequence.extractors:SequenceExtractor.extract',
+                           'recognizers_number_with_unit.number_with_unit.extractors:NumberWithUnitExtractor.extract', 'recognizers_date_time.date_time.base_merged:BaseMergedExtractor.extract',
+                           'recognizers_number.number.extractors:BaseNumberExtractor.extract', 'recognizers_text.utilities:QueryProcessor.preprocess'],
+                  engine='symx (solver-driven small-scope enumeration); the recognisers run natively'))
     return obs
